@@ -95,6 +95,20 @@ def bandQuery (args : List String) : String :=
                 let i ← ai 0
                 let one (o : Outcome Channel) : String := outStr (fun c => s!"{c.freq}:{c.minDR}:{c.maxDR}") o
                 pure (one (b.getUplinkChannel i) ++ " " ++ one (b.getDownlinkChannel i))
+            | "chanmac" => do
+                let i ← ai 0
+                pure (match b.getUplinkChannel i with
+                  | .ok c =>
+                    let hd := s!"{c.freq}:{c.minDR}:{c.maxDR}"
+                    if i < 0 || i > 255 || c.minDR < 0 || c.minDR > 255 || c.maxDR < 0 || c.maxDR > 255 then hd ++ " na" else
+                    let p := MacP.newChannelReq (BitVec.ofNat 8 i.toNat) (BitVec.ofNat 32 c.freq) (BitVec.ofNat 8 c.maxDR.toNat) (BitVec.ofNat 8 c.minDR.toNat)
+                    (match p.enc with
+                     | .ok bs => (match Kind.dec .newChannelReq (.newChannelReq 0 0 0 0) bs with
+                        | .ok q => if q == p then hd ++ " enc=1 rt=1" else hd ++ " enc=1 rt=0"
+                        | _ => hd ++ " enc=1 rt=0")
+                     | _ => hd ++ " enc=0")
+                  | .err => "ERR"
+                  | .panic => "PANIC")
             | "idx" => do let f ← au 0; let d ← ai 1; pure (outStr toString (b.getUplinkChannelIndex (f % 4294967296) (d != 0)))
             | "idxdr" => do let f ← au 0; let d ← ai 1; pure (outStr toString (b.getUplinkChannelIndexForFrequencyDR (f % 4294967296) d))
             | "cflist" => do
